@@ -357,21 +357,50 @@ def inject(text, anns, ops=None):
             out = []
             depth = 0
             j = i
+            ctx = []          # one entry per open brace: True when a `break` inside it belongs to an inner switch/loop
+            pending = False   # a switch/for/while/do keyword was seen: the next `{` opens a breakable block
+            arm_left = False  # the arm's own `break` was met inside a nested plain block
+            done = False
             while j < rb:
                 t = toks[j][1]
-                if t in ('{', '('):
+                if t in ('switch', 'for', 'while', 'do'):
+                    pending = True
+                if t == '{':
+                    ctx.append(pending or (bool(ctx) and ctx[-1]))
+                    pending = False
                     depth += 1
-                elif t in ('}', ')'):
+                elif t == '(':
+                    depth += 1
+                elif t == '}':
+                    depth -= 1
+                    if ctx:
+                        ctx.pop()
+                    if depth < 0:
+                        raise StageError('slice_case %s/%s: arm runs past the switch' % (fname, label))
+                    if depth == 0 and arm_left:
+                        out.append(t)
+                        done = True
+                        break
+                elif t == ')':
                     depth -= 1
                     if depth < 0:
                         raise StageError('slice_case %s/%s: arm runs past the switch' % (fname, label))
-                if depth == 0 and t == 'break' and toks[j + 1][1] == ';':
-                    break
+                elif t == ';' and pending and depth == 0:
+                    pending = False
+                if t == 'break' and toks[j + 1][1] == ';':
+                    if depth == 0:
+                        done = True
+                        break
+                    if not (ctx and ctx[-1]):
+                        out.append('{ ' + epilogue + ' }')  # leaves the arm from inside a plain block
+                        arm_left = True
+                        j += 2
+                        continue
                 if t == 'goto' and toks[j + 2][1] == ';':
                     out.append('{ ' + epilogue + ' }')
                     j += 3
                     continue
-                if t == 'continue' and toks[j + 1][1] == ';':
+                if t == 'continue' and toks[j + 1][1] == ';' and not (ctx and ctx[-1]):
                     raise StageError('slice_case %s/%s: arm contains continue' % (fname, label))
                 if depth == 0 and toks[j][0] == 'id' and toks[j + 1][1] == ':' and toks[j - 1][1] in (';', '}', ':') and t not in ('default',):
                     j += 2  # statement label
@@ -381,7 +410,7 @@ def inject(text, anns, ops=None):
                     continue
                 out.append(t)
                 j += 1
-            else:
+            if not done:
                 raise StageError('slice_case %s/%s: no break found' % (fname, label))
             body = ' '.join(out)
             appended.append('\n%s { %s %s %s }\n' % (proto, prologue, body, epilogue))
